@@ -4,7 +4,9 @@ import json, os, glob, re
 ROOT = os.path.join(os.path.dirname(os.path.abspath(__file__)), "..")
 props = [json.loads(l)["id"] for l in open(os.path.join(ROOT, "properties.jsonl"))]
 checks, claimed = [], set()
+enabled = set(open(os.path.join(ROOT, "props", "enabled.txt")).read().split())   # maintained by hand: checks that were reviewed and pass on the unchanged tree
 for pid in props:
+    if pid not in enabled: continue
     p = os.path.join(ROOT, "props", pid + ".json")
     if not os.path.exists(p): continue
     c = json.load(open(p))
